@@ -9,7 +9,7 @@ import sys
 sys.path.insert(0, os.path.dirname(os.path.abspath(__file__)))
 import stream_common as sc  # noqa: E402
 
-GEN = []
+GEN = ['GenConst.v']
 RULE = ('line sequences built by the harness from K messages (1..9 fragments, random bit payloads of real message types '
         'armored and cut by tools/ais.py) in distinct or reused (sequence id, channel) slots, per-message fragment permutation, '
         'random interleaving, some messages left incomplete, mixed with Gatehouse wrappers (valid / invalid dates), tag-blocked '
